@@ -87,6 +87,7 @@ type Runner struct {
 	cur         int
 
 	byID      map[string]*Peer
+	docs      []*document.Document
 	ctx       context.Context
 	ExFail    *Failure // failure raised from inside OnExchange
 	Exchanges int
@@ -188,6 +189,10 @@ func (r *Runner) Close() {
 	}
 	r.S.WaitIdle()
 	r.S.BE.Config.SnapshotDisableGC = false
+	for _, d := range r.docs {
+		runnerOf.Delete(d)
+	}
+	r.docs = nil
 }
 
 func (r *Runner) newDoc() *document.Document {
@@ -195,7 +200,10 @@ func (r *Runner) newDoc() *document.Document {
 	if r.P.Cfg.ClientNoGC {
 		opts = append(opts, document.WithDisableGC())
 	}
-	return document.New(r.DocKey, opts...)
+	d := document.New(r.DocKey, opts...)
+	runnerOf.Store(d, r)
+	r.docs = append(r.docs, d)
+	return d
 }
 
 func (r *Runner) attachOpts(i int) []interface{} {
@@ -276,14 +284,18 @@ func (r *Runner) Step(s Step) *Failure {
 		if r.Guard != nil {
 			ns, why := r.Guard(p.D, s)
 			if r.Forced != nil {
-				if fw, ok := r.Forced[r.cur]; ok && why == "" {
-					// the twin excluded this step: repeat its decision
+				fw, ok := r.Forced[r.cur]
+				rewriting := fw == "F2" || fw == "F6" || fw == "F10" || fw == "F11"
+				switch {
+				case ok && !rewriting:
+					// the twin skipped this step: repeat its decision, whatever
+					// this run's own guard says
 					ns, why = Step{}, fw
-					if fw == "F2" || fw == "F6" || fw == "F10" || fw == "F11" {
-						// rewriting guards are deterministic functions of the (equal) states
-						ns, why = r.Guard(p.D, s)
-					}
-				} else if !ok && why != "" {
+				case ok && why == "":
+					// the twin rewrote the step (a deterministic function of
+					// the - equal - states) and this run's guard does not
+					r.Ev["decision_mismatch"]++
+				case !ok && why != "":
 					r.Ev["decision_mismatch"]++
 				}
 			}
@@ -490,6 +502,9 @@ func (r *Runner) Step(s Step) *Failure {
 		if err != nil {
 			return failf("HARNESS", "docinfo: %v", err)
 		}
+		// the compaction replaces the log: count the concurrency of the old
+		// generation now (cross-run comparisons depend on it)
+		r.Ev["concurrent_pairs_before_compaction"] += r.CountConcurrency()
 		ok, err := documents.CompactDocument(r.ctx, r.S.BE, r.Proj, di, true)
 		r.S.WaitIdle()
 		r.log("server: forced compaction at head %d -> compacted=%v err=%v", di.ServerSeq, ok, err)
@@ -863,7 +878,7 @@ func Run(p Program, o RunOpts) (res Result) {
 			return
 		}
 	}
-	r.Ev["concurrent_pairs"] = r.CountConcurrency()
+	r.Ev["concurrent_pairs"] = r.CountConcurrency() + r.Ev["concurrent_pairs_before_compaction"]
 	if o.Rebuild {
 		if f := r.CheckServerRebuild(); f != nil {
 			res.Fail = f
